@@ -4,6 +4,7 @@
   (OptionalWhereFixup) as per-row null padding.
 -/
 import Nervus.Proofs.CypherExpand
+import Nervus.Model.Generated.OptionalFixup
 namespace Nervus.Cy
 open Nervus.Cy
 
@@ -178,5 +179,190 @@ theorem matchPath_fresh (used : List RelId) (r : Row) (a : String) (ha : a ∉ r
     Spec.matchSteps, Row.set_append_fresh r a _ ha]
   rw [flatMap_ite_singleton]
   simp [List.map_map, Function.comp]
+
+/-! ### 6'. OPTIONAL MATCH never removes outer rows -/
+
+theorem filterMap_congr_mem {α β} (l : List α) (f g : α → Option β) (h : ∀ x ∈ l, f x = g x) :
+    l.filterMap f = l.filterMap g := by
+  induction l with
+  | nil => rfl
+  | cons x xs ih =>
+    simp only [List.filterMap_cons, h x (by simp)]
+    rw [ih (fun y hy => h y (List.mem_cons_of_mem _ hy))]
+
+theorem length_flatMap_ge {α β} (l : List α) (f : α → List β) (h : ∀ a ∈ l, 1 ≤ (f a).length) :
+    l.length ≤ (l.flatMap f).length := by
+  induction l with
+  | nil => simp
+  | cons a rest ih =>
+    simp only [List.flatMap_cons, List.length_append, List.length_cons]
+    have h1 := h a (by simp)
+    have h2 := ih (fun b hb => h b (List.mem_cons_of_mem _ hb))
+    omega
+
+/-- the bindings of a row on the given columns -/
+def restrictCols (cols : List String) (r : Row) : Row := cols.filterMap fun c => (r.get c).map fun v => (c, v)
+
+theorem get_of_mem_nodup (o : Row) (hnd : o.cols.Nodup) (k : String) (v : Val) (h : (k, v) ∈ o) : o.get k = some v := by
+  unfold Row.get
+  induction o with
+  | nil => cases h
+  | cons p rest ih =>
+    obtain ⟨k', v'⟩ := p
+    simp only [Row.cols, List.map_cons, List.nodup_cons] at hnd
+    rcases List.mem_cons.mp h with heq | hmem
+    · cases heq; simp [List.lookup]
+    · have hne : k ≠ k' := by
+        intro hk; subst hk
+        exact hnd.1 (List.mem_map_of_mem (f := (·.1)) hmem)
+      have : (k == k') = false := by simpa using hne
+      simp only [List.lookup, this]
+      exact ih hnd.2 hmem
+
+theorem restrictCols_self (o : Row) (hnd : o.cols.Nodup) : restrictCols o.cols o = o := by
+  induction o with
+  | nil => rfl
+  | cons p rest ih =>
+    obtain ⟨k, v⟩ := p
+    have hnd' := hnd
+    simp only [Row.cols, List.map_cons, List.nodup_cons] at hnd'
+    have hrest : restrictCols (Row.cols rest) ((k, v) :: rest) = restrictCols (Row.cols rest) rest := by
+      unfold restrictCols
+      apply filterMap_congr_mem
+      intro c hc
+      have hne : c ≠ k := fun h => hnd'.1 (h ▸ hc)
+      have : (c == k) = false := by simpa using hne
+      simp [Row.get, List.lookup, this]
+    have hhead : Row.get ((k, v) :: rest) k = some v := by simp [Row.get, List.lookup]
+    show restrictCols (k :: Row.cols rest) ((k, v) :: rest) = (k, v) :: rest
+    unfold restrictCols
+    rw [List.filterMap_cons, hhead]
+    simp only [Option.map_some]
+    congr 1
+    exact hrest.trans (ih hnd'.2)
+
+theorem restrictCols_congr (cols : List String) (r o : Row) (h : ∀ c ∈ cols, r.get c = o.get c) :
+    restrictCols cols r = restrictCols cols o := by
+  unfold restrictCols
+  apply filterMap_congr_mem
+  intro c hc
+  rw [h c hc]
+
+theorem get_of_containsAll (r o : Row) (hnd : o.cols.Nodup) (h : Exec.containsAllBindings r o = true) :
+    ∀ c ∈ o.cols, r.get c = o.get c := by
+  intro c hc
+  obtain ⟨p, hp, hpc⟩ := List.mem_map.mp hc
+  obtain ⟨k, v⟩ := p
+  simp only at hpc
+  subst hpc
+  have hall := List.all_eq_true.mp h (k, v) hp
+  rw [get_of_mem_nodup o hnd k v hp]
+  simp only at hall
+  cases hr : r.get k with
+  | none => simp [hr] at hall
+  | some w =>
+    simp only [hr] at hall
+    rw [eq_of_beq hall]
+
+theorem get_pad_other (nulls : List String) (o : Row) (c : String) (hc : c ∉ nulls) :
+    (nulls.foldl (fun r a => r.set a .null) o).get c = o.get c := by
+  induction nulls generalizing o with
+  | nil => rfl
+  | cons a rest ih =>
+    simp only [List.foldl_cons]
+    rw [ih (o.set a .null) (fun h => hc (List.mem_cons_of_mem _ h))]
+    exact Row.get_set_ne o a c .null (fun h => hc (h ▸ List.mem_cons_self))
+
+/-- **operator lemma 6'' (OPTIONAL MATCH never removes outer rows)** — whatever the filtered side is (any pattern,
+    ANY predicate, reading outer variables, optional ones, both or none) and however often outer rows repeat:
+    projected on the outer columns, the output of OptionalWhereFixup is the outer table with every row repeated
+    once per row of the filtered side that carries its bindings — and once when there is none.  No outer row is
+    dropped, none is invented; the order of the outer rows is kept. -/
+theorem optionalFixup_preserves_outer (outer filtered : Table) (nulls cols : List String)
+    (hcols : ∀ o ∈ outer, o.cols = cols) (hnd : cols.Nodup) (hdisj : ∀ a ∈ nulls, a ∉ cols) :
+    (Exec.optionalFixup outer filtered nulls).map (restrictCols cols) =
+      outer.flatMap fun o =>
+        List.replicate (max 1 (filtered.filter fun r => Exec.containsAllBindings r o).length) o := by
+  unfold Exec.optionalFixup
+  rw [List.map_flatMap]
+  apply flatMap_congr_mem
+  intro o ho
+  have hoc := hcols o ho
+  have hond : o.cols.Nodup := hoc ▸ hnd
+  cases hm : (filtered.filter fun r => Exec.containsAllBindings r o) with
+  | nil =>
+    simp only [List.isEmpty_nil, ↓reduceIte, List.map_cons, List.map_nil, List.length_nil]
+    have : restrictCols cols (nulls.foldl (fun r a => r.set a .null) o) = o := by
+      rw [restrictCols_congr cols _ o (fun c hc => get_pad_other nulls o c (fun h => hdisj c h hc)), ← hoc]
+      exact restrictCols_self o hond
+    rw [this]; rfl
+  | cons x xs =>
+    simp only [List.isEmpty_cons, Bool.false_eq_true, ↓reduceIte, List.length_cons]
+    have hall : ∀ r ∈ x :: xs, restrictCols cols r = o := by
+      intro r hr
+      have hr' : r ∈ filtered.filter fun r => Exec.containsAllBindings r o := hm ▸ hr
+      have hc := (List.mem_filter.mp hr').2
+      rw [restrictCols_congr cols r o (fun c hc' => get_of_containsAll r o hond hc c (hoc ▸ hc')), ← hoc]
+      exact restrictCols_self o hond
+    have hmax : max 1 (xs.length + 1) = xs.length + 1 := by omega
+    rw [hmax]
+    apply List.eq_replicate_iff.mpr
+    refine ⟨by simp, ?_⟩
+    intro b hb
+    obtain ⟨r, hr, rfl⟩ := List.mem_map.mp hb
+    exact hall r hr
+
+/-- … hence every outer row is in the output (projected), at least once -/
+theorem optionalFixup_keeps_every_outer_row (outer filtered : Table) (nulls cols : List String)
+    (hcols : ∀ o ∈ outer, o.cols = cols) (hnd : cols.Nodup) (hdisj : ∀ a ∈ nulls, a ∉ cols) :
+    ∀ o ∈ outer, o ∈ (Exec.optionalFixup outer filtered nulls).map (restrictCols cols) := by
+  intro o ho
+  rw [optionalFixup_preserves_outer outer filtered nulls cols hcols hnd hdisj]
+  apply List.mem_flatMap.mpr
+  refine ⟨o, ho, ?_⟩
+  apply List.mem_replicate.mpr
+  exact ⟨by omega, rfl⟩
+
+/-- … and the output is never shorter than the outer table: `count(*)` after OPTIONAL MATCH counts padded rows -/
+theorem optionalFixup_length_ge (outer filtered : Table) (nulls : List String) :
+    outer.length ≤ (Exec.optionalFixup outer filtered nulls).length := by
+  unfold Exec.optionalFixup
+  apply length_flatMap_ge
+  intro o _
+  cases hm : (filtered.filter fun r => Exec.containsAllBindings r o) <;> simp [hm]
+
+/-- plan level: for ANY outer plan and ANY filtered-side plan (in particular `Filter p` over the expanded pattern,
+    for every predicate `p`) -/
+theorem optionalWhereFixup_preserves_outer (o f : Plan) (ns cols : List String) (outer filtered : Table)
+    (ho : Exec.exec A env o = .ok outer) (hf : Exec.exec A env f = .ok filtered)
+    (hcols : ∀ r ∈ outer, r.cols = cols) (hnd : cols.Nodup) (hdisj : ∀ a ∈ ns, a ∉ cols) :
+    ∃ out, Exec.exec A env (.optionalWhereFixup o f ns) = .ok out ∧
+      out.map (restrictCols cols) = (outer.flatMap fun r =>
+        List.replicate (max 1 (filtered.filter fun x => Exec.containsAllBindings x r).length) r) ∧
+      (∀ r ∈ outer, r ∈ out.map (restrictCols cols)) ∧ outer.length ≤ out.length := by
+  refine ⟨Exec.optionalFixup outer filtered ns, ?_, optionalFixup_preserves_outer outer filtered ns cols hcols hnd hdisj,
+    optionalFixup_keeps_every_outer_row outer filtered ns cols hcols hnd hdisj,
+    optionalFixup_length_ge outer filtered ns⟩
+  simp only [Exec.exec, ho, hf, bind, Except.bind, pure, Except.pure]
+
+/-- the model's planner puts the incoming plan itself on the outer side of OptionalWhereFixup when a WHERE follows
+    the OPTIONAL MATCH (the construction the table `Generated.optionalOuterSideIsIncomingPlan` recognises in
+    compile_core.rs) -/
+theorem compile_optional_where_outer (pats : List PathPat) (w : Expr) (rest : Query) (l : Compile.Loop) :
+    Compile.compileClauses (.match_ true pats :: .where_ w :: rest) l =
+      (do
+        let (plan, st) ← Compile.compileMatch l.plan pats (Compile.extractPredicates w []) l.st
+        let aliases := Compile.optionalAliases pats
+          (match l.plan with | some p => Compile.outKinds p | none => []) (Compile.outKinds plan)
+        Compile.exprVarsOk (Compile.outKinds plan ++ aliases.map (·, Kind.unknown)) w
+        Compile.compileClauses rest
+          { plan := some (.optionalWhereFixup (l.plan.getD .returnOne) (.filter plan w) aliases), st := st }) := by
+  simp only [Compile.compileClauses, bind, Except.bind]
+  cases Compile.compileMatch l.plan pats (Compile.extractPredicates w []) l.st with
+  | error e => rfl
+  | ok ps =>
+    obtain ⟨plan, st⟩ := ps
+    simp only [↓reduceIte]
+    cases Compile.exprVarsOk _ w <;> rfl
 
 end Nervus.Cy
